@@ -364,7 +364,9 @@ pub struct Note {
 
 pub fn library(rng: &mut Rng, hostile: bool, max_notes: usize, nested: bool) -> Vec<Note> {
     let n = rng.range(1, max_notes);
-    let pool: Vec<&str> = if nested { KEYS[..13].to_vec() } else { vec!["a", "b", "c", "n1", "n2", "k", "m", "заметки", "notes-éé"] };
+    // nested libraries also hold directories whose NAMES share a prefix without being nested (d, dx, d2):
+    // a string prefix is not a path prefix
+    let pool: Vec<&str> = if nested { let mut p = KEYS[..13].to_vec(); p.extend_from_slice(&["dx/a", "dx/y/b", "d2", "d/x/a"]); p } else { vec!["a", "b", "c", "n1", "n2", "k", "m", "заметки", "notes-éé"] };
     let mut keys: Vec<String> = vec![];
     while keys.len() < n {
         let k = rng.pick(&pool).to_string();
